@@ -189,17 +189,19 @@ class Zone:
         # which is kept as a disjunction and refuted when both branches are (after the closure)
         self._either = []
         for a in atoms:
-            if a[0] == "bool" and isinstance(a[1], tuple) and a[1][:2] == ("call", "Range::contains") and len(a[1][2]) == 2:
-                lo, hi = _range_bounds(fn, norm(a[1][2][0]), a[1][3] if len(a[1]) == 4 else None)
-                x = _deref_value(norm(a[1][2][1]))
+            if a[0] == "bool" and isinstance(a[1], tuple) and a[1][:1] == ("call",) and a[1][1] in ("Range::contains", "RangeInclusive::contains") and len(a[1][2]) == 2:
+                cb = a[1][3] if len(a[1]) == 4 else None
+                lo, hi = _range_bounds(fn, norm(a[1][2][0]), cb)
+                x = _value_behind(fn, norm(a[1][2][1]), cb)
                 if lo is None or x is None:
                     continue
                 x = norm(x)
+                incl = 0 if a[1][1] == "RangeInclusive::contains" else -1   # x <= end  /  x < end
                 if a[2]:
                     more.add(("le", lo, x, 0))
-                    more.add(("le", x, hi, -1))
+                    more.add(("le", x, hi, incl))
                 else:
-                    self._either.append(((x, lo, -1), (hi, x, 0)))
+                    self._either.append(((x, lo, -1), (hi, x, -1 - incl)))
         # an excluded outcome of a three-way comparison of two usize values (`match a.cmp(&b) { Less => .., _ => .. }`)
         for a in atoms:
             if a[0] == "isnot" and isinstance(a[1], tuple) and a[1][:2] == ("call", "<usize as Ord>::cmp") and len(a[1][2]) == 2:
@@ -489,10 +491,18 @@ class Zone:
                     if m in self.idx and self.le(z, m, -1) and self._add(t, m, -1):
                         changed = True
                 if t[0] == "pcall" and t[1] in ("core::cmp::min", "core::cmp::Ord::min", "<usize>::min"):
-                    for x in t[2]:
-                        x = norm(x)
+                    ops_ = [norm(x) for x in t[2]]
+                    for x in ops_:
                         if x in self.idx and self._add(t, x, 0):
                             changed = True
+                    # ... and it is one of them: whatever is below both is below it
+                    if len(ops_) == 2 and all(x in self.idx for x in ops_):
+                        ia, ib, it_ = self.idx[ops_[0]], self.idx[ops_[1]], self.idx[t]
+                        for u in list(self.terms):
+                            iu = self.idx[u]
+                            w = max(self.d[iu][ia], self.d[iu][ib])
+                            if w < INF and self._add(u, t, w):
+                                changed = True
             if not changed:
                 break
         self._close()
@@ -598,10 +608,35 @@ def _phi_field_bounds(fn, t, bounds):
     return out
 
 
-def _range_bounds(fn, r, call_block):
-    """(start, end) terms of the Range<usize> behind reference expression r"""
+def _value_behind(fn, r, call_block):
+    """the usize value behind a reference expression: `&local`, `&param`, `&local.field`, `&(*p).field`"""
     v = _deref_value(r)
     if v is not None:
+        return v
+    if isinstance(r, tuple) and r and r[0] == "ref" and isinstance(r[1], tuple):
+        t = r[1]
+        if t[0] == "local" and len(t) == 2 and isinstance(t[1], int) and 1 <= t[1] <= fn.arg_count:
+            return ("param", t[1])
+        if t[0] == "place" and len(t) == 3 and t[2] and all(isinstance(p_, str) for p_ in t[2]):
+            base = t[1]
+            inner = _value_behind(fn, base, call_block) if isinstance(base, tuple) and base[:1] == ("ref",) else None
+            if inner is not None:
+                for p_ in t[2]:
+                    inner = mir.simplify(("field", inner, p_))
+                return inner
+            if isinstance(call_block, int) and call_block < len(fn.blocks):
+                ver = fn.version_at(call_block, len(fn.blocks[call_block]["stmts"]), ("M", t[2][0]))
+                return ("load", base, tuple(t[2]), ver)
+    return None
+
+
+def _range_bounds(fn, r, call_block):
+    """(start, end) terms of the Range<usize> / RangeInclusive<usize> behind reference expression r"""
+    v = _value_behind(fn, r, call_block) if not (isinstance(r, tuple) and r[:1] == ("ref",) and isinstance(r[1], tuple) and r[1][:1] == ("place",)
+                                                and not (isinstance(r[1][1], tuple) and r[1][1][:1] == ("ref",))) else None
+    if isinstance(v, tuple) and v[:2] == ("call", "RangeInclusive::new") and len(v[2]) == 2:
+        return norm(v[2][0]), norm(v[2][1])
+    if v is not None and not (isinstance(v, tuple) and v[:1] in (("const",), ("load",))):
         return norm(mir.simplify(("field", v, "start"))), norm(mir.simplify(("field", v, "end")))
     if isinstance(r, tuple) and r and r[0] == "ref" and isinstance(r[1], tuple) and r[1][0] == "place" and len(r[1]) == 3 and r[1][2]:
         base, path = r[1][1], tuple(r[1][2])
